@@ -16,9 +16,12 @@ import ChibiVerif.Lemmas.LinkageEmit
 import ChibiVerif.Lemmas.LinkageView
 import ChibiVerif.Lemmas.LinkageExact
 import ChibiVerif.Lemmas.LinkageData
+import ChibiVerif.Lemmas.LinkagePre
 
 namespace ChibiVerif.Linkage
 open ChibiVerif.Spec.Linkage
+
+variable [Rules]
 
 /-! ### `mark_live` does not touch data -/
 
@@ -152,13 +155,15 @@ theorem Parsed.fnNotTent1 : FnNotTent gs1 := p.ext.upd.fnNotTent (wf_declAll p.h
 
 theorem Parsed.nodup1 : (fnNamesOf gs1).Nodup := by rw [p.ext.upd.fnNamesOf]; exact (wf_declAll p.hst).nodup
 
-theorem Parsed.data1 : dataOf gs1 = allNews 0 ds := by rw [dataOf_markRoots p.hm, dataOf_parse p.hst]
+theorem Parsed.data1 : dataOf gs1 = allNews 0 env0 ds := by rw [dataOf_markRoots p.hm, dataOf_parse p.hst]
+
+theorem Parsed.fnNotTent2 : FnNotTent (preScan gs1) := fnNotTent_preScan p.fnNotTent1
 
 /-- a function object of the result -/
 theorem Parsed.fn_of_mem {o : Obj} (ho : o ∈ gs) (hf : o.isFunction = true) :
     ∃ f o0, findFunc st.globals f = some o0 ∧ o = { o0 with isLive := liveFn gs1 f } := by
   rw [p.hgs] at ho
-  have ho1 : o ∈ gs1 := (mem_scanGlobals_fn p.fnNotTent1 hf).mp ho
+  have ho1 : o ∈ gs1 := (mem_preScan_fn hf).mp ((mem_scanCore_fn p.fnNotTent2 hf).mp ho)
   obtain ⟨o0, ho0, hh⟩ := p.ext.upd.mem ho1
   have hf0 : o0.isFunction = true := by rcases hh with rfl | rfl <;> exact hf
   obtain ⟨f, hs0⟩ := fnNamed_declAll p.hst o0 ho0 hf0
@@ -190,35 +195,49 @@ theorem Parsed.mem_of_fn {f : Name} {o0 : Obj} (h0 : findFunc st.globals f = som
       simp_all
     · rw [← hlive]
   rw [← this, p.hgs]
-  exact (mem_scanGlobals_fn p.fnNotTent1 hf').mpr ho'
+  exact (mem_scanCore_fn p.fnNotTent2 hf').mpr ((mem_preScan_fn hf').mpr ho')
 
-/-- a non-tentative data object of the result is one of the objects `parse` created -/
+/-- the functions of the result are found as in the list the root loop left -/
+theorem Parsed.findFunc_gs (f : Name) : findFunc gs f = findFunc gs1 f := by
+  rw [p.hgs]
+  unfold scanGlobals
+  rw [findFunc_scanCore p.fnNotTent2, findFunc_preScan]
+
+/-- a non-tentative data object of the result is one of the objects `parse` created (after the pass in front of
+    `scan_globals`) -/
 theorem Parsed.data_nt_of_mem {o : Obj} (ho : o ∈ gs) (hf : o.isFunction = false) (ht : o.isTentative = false) :
-    o ∈ allNews 0 ds := by
+    ∃ a, a ∈ allNews 0 env0 ds ∧ o = preOne gs1 a := by
   rw [p.hgs] at ho
-  have : o ∈ (scanGlobals gs1).filter notTent := List.mem_filter.mpr ⟨ho, by simp [notTent, ht]⟩
-  rw [filter_notTent_scanGlobals] at this
+  have : o ∈ (scanCore (preScan gs1)).filter notTent := List.mem_filter.mpr ⟨ho, by simp [notTent, ht]⟩
+  rw [filter_notTent_scanCore] at this
+  obtain ⟨a, ha, rfl⟩ := mem_preScan.mp (List.mem_filter.mp this).1
+  refine ⟨a, ?_, rfl⟩
   rw [← p.data1]
-  exact mem_dataOf.mpr ⟨(List.mem_filter.mp this).1, hf⟩
+  obtain ⟨t, hta⟩ := preOne_same gs1 a
+  exact mem_dataOf.mpr ⟨ha, by rw [hta] at hf; exact hf⟩
 
 /-- ... and each of those is in the result -/
-theorem Parsed.mem_of_data_nt {a : Obj} (ha : a ∈ allNews 0 ds) (ht : a.isTentative = false) : a ∈ gs := by
+theorem Parsed.mem_of_data_nt {a : Obj} (ha : a ∈ allNews 0 env0 ds) (ht : a.isTentative = false) : preOne gs1 a ∈ gs := by
   rw [← p.data1] at ha
   have h1 := (mem_dataOf.mp ha).1
-  have : a ∈ gs1.filter notTent := List.mem_filter.mpr ⟨h1, by simp [notTent, ht]⟩
-  rw [← filter_notTent_scanGlobals] at this
+  obtain ⟨t, hta⟩ := preOne_same gs1 a
+  have : preOne gs1 a ∈ (preScan gs1).filter notTent :=
+    List.mem_filter.mpr ⟨mem_preScan.mpr ⟨a, h1, rfl⟩, by rw [hta]; simp [notTent, ht]⟩
+  rw [← filter_notTent_scanCore] at this
   rw [p.hgs]
   exact (List.mem_filter.mp this).1
 
 /-- a data object of the result is, up to its type, one of the objects `parse` created and `scan_globals` kept -/
 theorem Parsed.data_of_mem {o : Obj} (ho : o ∈ gs) (hf : o.isFunction = false) :
-    ∃ a, a ∈ allNews 0 ds ∧ a ∈ scanPure gs1 gs1 ∧ SameButTy o a := by
+    ∃ a, a ∈ allNews 0 env0 ds ∧ preOne gs1 a ∈ scanPure (preScan gs1) (preScan gs1) ∧ SameButTy o (preOne gs1 a) ∧ SameButTy o a := by
   rw [p.hgs] at ho
-  obtain ⟨a, ha, hsame⟩ := (scanGlobals_tyRel gs1).mem ho
-  have hfa : a.isFunction = false := by obtain ⟨t, rfl⟩ := hsame; exact hf
-  refine ⟨a, ?_, ha, hsame⟩
+  obtain ⟨a2, ha2, hsame⟩ := (scanCore_tyRel (preScan gs1)).mem ho
+  obtain ⟨a, ha, rfl⟩ := mem_preScan.mp (scanPure_sub _ _ a2 ha2)
+  have hsa := (preOne_same gs1 a).trans hsame
+  have hfa : a.isFunction = false := by obtain ⟨t, rfl⟩ := hsa; exact hf
+  refine ⟨a, ?_, ha2, hsame, hsa⟩
   rw [← p.data1]
-  exact mem_dataOf.mpr ⟨scanPure_sub gs1 gs1 a ha, hfa⟩
+  exact mem_dataOf.mpr ⟨ha, hfa⟩
 
 /-- a function object named `x` exists only if `x` is declared as a function -/
 theorem Parsed.fn_declared {o : Obj} {x : Name} (ho : o ∈ gs1) (hf : o.isFunction = true) (hs : o.sym = .named x) :
